@@ -6,6 +6,7 @@ TraitList), plus depth-2 sequences on short lists to validate that argument.
 """
 import itertools
 
+from traits.api import CInt, HasTraits, List
 from traits.trait_list_object import TraitList
 from traits.trait_errors import TraitError
 
@@ -18,7 +19,7 @@ RULE = ("every (validator mode, list contents up to the length bound, operation"
 EXPLANATION = ("direct exploration of the implementation: every trace is an "
                "implementation trace; reference model = built-in list on "
                "validated items")
-BOUNDS = {"quick": "lengths 0..6 distinct items, dup/perm patterns <=4, "
+BOUNDS = {"quick": "lengths 0..6 distinct items (0..4 for the List-trait owner mode), dup/perm patterns <=4, "
                    "indices/slice bounds -(n+3)..n+3, steps None,+-1,+-2,+-3,"
                    "+-(n+2), replacement length 0..4, depth-2 on length<=2",
           "thorough": "lengths 0..9, dup/perm patterns <=4, depth-2 on "
@@ -29,11 +30,12 @@ ASSUMPTIONS = ["list operations are parametric in pairwise distinct items, so "
                "items are ints / digit strings; validators are pure"]
 MIN_OUTCOMES = {t: ["event-int", "event-slice", "silent-noop",
                     "identity-event", "IndexError", "ValueError", "TypeError",
-                    "TraitError"] for t in ("quick", "thorough")}
+                    "TraitError", "items-event", "observer-event"]
+                for t in ("quick", "thorough")}
 TIMEOUT = {"quick": 600, "thorough": 3000}
 
 BAD = -1
-MODES = ("id", "coerce", "reject")
+MODES = ("id", "coerce", "reject", "owner")
 
 
 def validator(mode):
@@ -57,7 +59,7 @@ def validator(mode):
 
 
 def model_validate(mode, x):
-    if mode == "coerce" and isinstance(x, str):
+    if mode in ("coerce", "owner") and isinstance(x, str):
         if x.lstrip("-").isdigit():
             return int(x)
         raise TraitError("bad")
@@ -205,6 +207,7 @@ def check_event(before, after, ev):
 class Rec:
     def __init__(self):
         self.events = []
+        self.extra = {}
 
     def __call__(self, tl, index, removed, added):
         self.events.append((index, list(removed), list(added), list(tl)))
@@ -217,7 +220,10 @@ def step(ctx, mode, tl, rec, ref, op, tag):
     ctx.tr()
     acc, ok = model(mode, before, op)
     rec.events.clear()
+    for log in rec.extra.values():
+        log.clear()
     notifiers, val = tl.notifiers, tl.item_validator
+    n_notifiers = len(notifiers)
     try:
         ret = do(tl, op)
         exc = None
@@ -237,8 +243,8 @@ def step(ctx, mode, tl, rec, ref, op, tag):
                       expected={"exc": sorted(c.__name__ for c in acc),
                                 "after": ok and ok[1]})
 
-    if tl.notifiers is not notifiers or tl.notifiers != [rec] or \
-            tl.item_validator is not val:
+    if tl.notifiers is not notifiers or len(tl.notifiers) != n_notifiers \
+            or tl.notifiers[-1] is not rec or tl.item_validator != val:
         bad("hooks", "notifiers/item_validator altered by the operation")
     if exc is not None:
         ctx.outcome(exc.__name__)
@@ -249,9 +255,9 @@ def step(ctx, mode, tl, rec, ref, op, tag):
                 exc.__name__, sorted(c.__name__ for c in acc)))
         if after != before:
             bad("failed-op-mutated", "failing operation changed contents")
-        if evs:
+        if evs or any(rec.extra.values()):
             bad("failed-op-notified", "failing operation emitted %d event(s)"
-                % len(evs))
+                % (len(evs) + sum(map(len, rec.extra.values()))))
         ctx.nontriv((mode, before, op))
         return good
     if ok is None:
@@ -287,6 +293,18 @@ def step(ctx, mode, tl, rec, ref, op, tag):
                 if err:
                     bad("noop-event", "unchanged contents but event is not an"
                         " identity: " + err)
+    # the same laws for the "_items" trait event and the observer's
+    # ListChangeEvent of a List trait value (owner mode)
+    for lname, log in rec.extra.items():
+        if len(log) != len(evs):
+            bad("%s-count" % lname, "%d raw notifications but %d %s events"
+                % (len(evs), len(log), lname))
+            continue
+        for e in log:
+            ctx.outcome(lname + "-event")
+            err = check_event(before, after, e)
+            if err:
+                bad(lname + "-event", "%s event: %s" % (lname, err))
     return good
 
 
@@ -295,7 +313,7 @@ def new_items(mode, k, base=100):
     """Replacement payloads of length k (simplest first)."""
     good = [base + i for i in range(k)]
     out = [good]
-    if mode == "coerce" and k:
+    if mode in ("coerce", "owner") and k:
         out.append([str(x) for x in good])
         if k >= 1:
             out.append(good[:-1] + ["x"])
@@ -307,7 +325,7 @@ def new_items(mode, k, base=100):
 
 def one_items(mode):
     out = [100]
-    if mode == "coerce":
+    if mode in ("coerce", "owner"):
         out += ["100", "x"]
     if mode == "reject":
         out.append(BAD)
@@ -391,12 +409,20 @@ def shards(tier):
     maxn = 6 if tier == "quick" else 9
     out = []
     for mode in MODES:
-        for n in range(maxn + 1):
-            out.append({"kind": "all", "mode": mode, "n": n})
+        top = maxn if mode != "owner" else maxn - 2
+        for n in range(top + 1):
+            if n >= 5:
+                for c in range(4):
+                    out.append({"kind": "all", "mode": mode, "n": n,
+                                "chunk": c, "of": 4})
+            else:
+                out.append({"kind": "all", "mode": mode, "n": n})
     out.append({"kind": "patterns"})
     d2 = 1 if tier == "quick" else 3
     for mode in MODES:
         for n in range(d2 + 1):
+            if mode == "owner" and n > 0 and tier == "quick":
+                continue
             of = 1 if n < 2 else 8 * (n - 1)
             for c in range(of):
                 out.append({"kind": "depth2", "mode": mode, "n": n,
@@ -404,8 +430,28 @@ def shards(tier):
     return out
 
 
+class Owner(HasTraits):
+    # one class for all executions: C05 never touches class-level state
+    x = List(CInt)
+    log = None
+
+    def _x_items_changed(self, ev):
+        self.log.append((ev.index, list(ev.removed), list(ev.added)))
+
+
 def fresh(mode, contents):
     rec = Rec()
+    if mode == "owner":
+        items = rec.extra["items"] = []
+        obs = rec.extra["observer"] = []
+
+        owner = Owner(x=list(contents))
+        owner.log = items
+        owner.observe(lambda ev: obs.append(
+            (ev.index, list(ev.removed), list(ev.added))), "x.items")
+        rec.owner = owner
+        owner.x.notifiers.append(rec)
+        return owner.x, rec
     tl = TraitList(contents, item_validator=validator(mode), notifiers=[rec])
     return tl, rec
 
@@ -417,6 +463,7 @@ def run_shard(ctx, shard, tier):
         contents = list(range(n))
         ctx.state((mode, contents))
         ops = ops_for(mode, n, tier)
+        ops = ops[shard.get("chunk", 0)::shard.get("of", 1)]
         for op in ops:
             ctx.case({"mode": mode, "before": contents, "ops": [op]})
             ctx.ev()
